@@ -244,7 +244,29 @@ func (x *Exec) step(st *State, fr *Frame, ins ssa.Instruction) bool {
 		if v, ok := ins.(ssa.Value); ok {
 			fr.env[v] = x.freshVal(st, "chan", v.Type())
 		}
-	case *ssa.SliceToArrayPointer, *ssa.MultiConvert:
+	case *ssa.SliceToArrayPointer:
+		// (*[N]T)(s): panics when len(s) < N; the result points at the first N elements of s. Modelled
+		// as a fresh array cell holding a copy of them (the conversions in this code base are
+		// dereferenced at once: [N]T(s)), i.e. aliasing with s is dropped.
+		sv := x.val(st, fr, in.X)
+		at, okT := in.Type().Underlying().(*types.Pointer).Elem().Underlying().(*types.Array)
+		if !okT || sv.T.Sort != SSlice {
+			fr.env[in] = x.freshVal(st, "conv", in.Type())
+			x.Abstracted["slice-to-array / multiconvert"]++
+			break
+		}
+		x.safety(st, fr, in, "slice", App(SBool, ">=", App(SInt, "s.len", sv.T), IntLit(at.Len())))
+		esort := x.S.SortOf(at.Elem())
+		en, es := elemArrName(esort)
+		harr := x.heapArr(st, en, es)
+		src := x.define(st, "s2a.src", Select(harr, App(SRef, "s.base", sv.T)))
+		r := x.newRef(st, "s2a")
+		row := x.D.Fresh("s2a.row", ArraySort(SInt, esort))
+		st.assume(Term{fmt.Sprintf("(forall ((i Int)) (! (=> (and (<= 0 i) (< i %d)) (= (select %s i) (select %s (+ %s i)))) :pattern ((select %s i))))", at.Len(), row.S, src.S, App(SInt, "s.off", sv.T).S, row.S), SBool})
+		x.setHeap(st, en, Store(harr, r, row))
+		fr.env[in] = Val{T: r, Typ: in.Type(), LV: &LVal{Kind: "obj", Root: r, RootT: at}}
+		x.Abstracted["slice converted to array: contents copied (aliasing with the slice dropped)"]++
+	case *ssa.MultiConvert:
 		v := ins.(ssa.Value)
 		fr.env[v] = x.freshVal(st, "conv", v.Type())
 		x.Abstracted["slice-to-array / multiconvert"]++
@@ -664,8 +686,25 @@ func (x *Exec) sliceOp(st *State, fr *Frame, in *ssa.Slice) Val {
 			hiT = hi.T
 		}
 		x.safety(st, fr, in, "slice", And(App(SBool, "<=", IntLit(0), loT), App(SBool, "<=", loT, hiT), App(SBool, "<=", hiT, n)))
-		// materialise the array as slice backing: copy the cell's array value into an elems row
 		l := x.lvalOf(xv)
+		if l.Kind == "obj" && len(l.Path) == 0 && l.RootT != nil {
+			if _, isArr := l.RootT.Underlying().(*types.Array); isArr {
+				// the array cell is its own slice backing (see cellArrName): no copy, full aliasing
+				if at0 := l.RootT.Underlying().(*types.Array); st.meta != nil && at0.Len() <= 64 {
+					// static information about the cells is also reachable through the slice
+					for k := int64(0); k < at0.Len(); k++ {
+						src := l.extend(lstep{isIdx: true, idx: IntLit(k), ct: at0.Elem()})
+						if mv, ok := st.meta[lvKey(src)]; ok {
+							dst := &LVal{Kind: "elems", Root: l.Root, RootT: at0.Elem(), Path: []lstep{{isIdx: true, idx: IntLit(k)}}}
+							st.meta[lvKey(dst)] = mv
+						}
+					}
+				}
+				return Val{T: App(SSlice, "mk-slice", l.Root, loT, App(SInt, "-", hiT, loT), App(SInt, "-", n, loT)), Typ: in.Type()}
+			}
+		}
+		// an array inside a larger object: materialise it as slice backing by copying the array value
+		// into an elems row (aliasing with the enclosing object is dropped)
 		arrT, _, err := x.loadLV(st.heap, l)
 		sort := x.S.SortOf(at.Elem())
 		base := x.newRef(st, "arr")
